@@ -140,9 +140,244 @@ fn explore(threads: usize, allocs: usize, only: Option<Vec<usize>>, out: &mut Ou
     }
 }
 
+// ---------------------------------------------------------------------------------------------
+// Part 2: id assignment at the Swarm level (one or two real Swarms in this process over the
+// scripted transport of the whole-Swarm family). Every *allocation* — one per Incoming action
+// (the id the Swarm passes to handle_pending_inbound_connection) and one per dial action
+// (DialOpts::connection_id()) — must get an id different from every other allocation, whatever
+// the behaviour denies and however the attempts resolve; every id that shows up in a behaviour
+// callback must belong to an allocation.
+
+use crate::sys::{a, Deny, DenyMask, LogEv, Probe, SwarmSys, SysCfg};
+use libp2p_swarm::behaviour::ToSwarm;
+use libp2p_swarm::dial_opts::PeerCondition;
+
+const SACTS: [&str; 5] = ["Incoming", "Dial", "BehaviourDial", "ResolveOk", "ResolveErr"];
+
+fn log_cid(e: &LogEv) -> Option<ConnectionId> {
+    match e {
+        LogEv::PendingIn { cid, .. }
+        | LogEv::PendingOut { cid, .. }
+        | LogEv::EstIn { cid, .. }
+        | LogEv::EstOut { cid, .. }
+        | LogEv::Established { cid, .. }
+        | LogEv::Closed { cid, .. }
+        | LogEv::DialFailure { cid, .. }
+        | LogEv::ListenFailure { cid, .. }
+        | LogEv::FromHandler { cid, .. }
+        | LogEv::HandlerGot { cid, .. }
+        | LogEv::HandlerPolled { cid, .. }
+        | LogEv::HandlerDropped { cid, .. } => Some(*cid),
+        LogEv::Other { .. } => None,
+    }
+}
+
+#[derive(Default)]
+struct SwarmStat {
+    allocations: usize,
+    denied_inbound_then_incoming: bool,
+}
+
+/// `seq`: (swarm index, action index into SACTS)
+fn swarm_case(masks: &[DenyMask], seq: &[(usize, usize)]) -> Result<SwarmStat, String> {
+    let mut systems: Vec<SwarmSys<Probe>> = Vec::new();
+    for m in masks {
+        let log: crate::sys::Log = Default::default();
+        let mut sys = SwarmSys::new(Probe::new(0, log.clone(), *m), log, SysCfg::default());
+        sys.swarm.listen_on(a(100)).map_err(|e| format!("harness-desync :: listen_on failed: {e}"))?;
+        sys.run(10_000);
+        sys.take_log();
+        systems.push(sys);
+    }
+    let many = if masks.len() > 1 { "two swarms" } else { "one swarm" };
+    // (kind, swarm, id)
+    let mut allocs: Vec<(&'static str, usize, ConnectionId)> = Vec::new();
+    let mut stat = SwarmStat::default();
+    let mut denied_inbound = vec![false; masks.len()];
+    for (step, &(w, act)) in seq.iter().enumerate() {
+        let sys = &mut systems[w];
+        let mut new: Vec<(&'static str, usize, ConnectionId)> = Vec::new();
+        let opts = || libp2p_swarm::dial_opts::DialOpts::peer_id(kit::ids::peer(1)).condition(PeerCondition::Always).addresses(vec![a(1)]).build();
+        match act {
+            0 => {
+                if denied_inbound[w] {
+                    stat.denied_inbound_then_incoming = true;
+                }
+                sys.ctl.lock().unwrap().incoming(0, a(100), a(200));
+            }
+            1 => {
+                let o = opts();
+                new.push(("dial", w, o.connection_id()));
+                let _ = sys.swarm.dial(o);
+            }
+            2 => {
+                let o = opts();
+                new.push(("behaviour-dial", w, o.connection_id()));
+                sys.swarm.behaviour_mut().push(ToSwarm::Dial { opts: o });
+            }
+            _ => {
+                let k = sys.ctl.lock().unwrap().open_attempts().first().copied();
+                if let Some(k) = k {
+                    if act == 3 {
+                        sys.ctl.lock().unwrap().resolve_ok(k, 1);
+                    } else {
+                        sys.ctl.lock().unwrap().resolve_err(k);
+                    }
+                }
+            }
+        }
+        sys.kick();
+        if sys.run(10_000) == kit::tasks::RunEnd::Horizon {
+            return Err(format!("horizon :: swarm still runnable after 10000 steps at step {step}"));
+        }
+        let entries = sys.take_log();
+        if act == 0 {
+            let ids: Vec<ConnectionId> = entries.iter().filter_map(|(_, e)| if let LogEv::PendingIn { cid, .. } = e { Some(*cid) } else { None }).collect();
+            if ids.len() != 1 {
+                return Err(format!("harness-desync :: Incoming action produced {} handle_pending_inbound_connection calls", ids.len()));
+            }
+            new.push(("incoming", w, ids[0]));
+            if entries.iter().any(|(_, e)| matches!(e, LogEv::PendingIn { denied: true, .. } | LogEv::EstIn { denied: true, .. })) {
+                denied_inbound[w] = true;
+            }
+        } else if entries.iter().any(|(_, e)| matches!(e, LogEv::EstIn { denied: true, .. })) {
+            denied_inbound[w] = true;
+        }
+        for n in new {
+            if let Some(old) = allocs.iter().find(|o| o.2 == n.2) {
+                let same = if old.1 == n.1 { "same swarm" } else { "other swarm" };
+                return Err(format!(
+                    "swarm-id-reused {} after {} ({same}, {many}) :: id {} assigned to {} #{} of swarm {} was already assigned to {} of swarm {}; actions {:?}, deny masks {masks:?}",
+                    n.0,
+                    old.0,
+                    n.2,
+                    n.0,
+                    step,
+                    n.1,
+                    old.0,
+                    old.1,
+                    seq.iter().map(|(w, x)| format!("{w}:{}", SACTS[*x])).collect::<Vec<_>>()
+                ));
+            }
+            allocs.push(n);
+        }
+        for (_, e) in &entries {
+            if let Some(c) = log_cid(e) {
+                if !allocs.iter().any(|o| o.2 == c && o.1 == w) {
+                    return Err(format!("swarm-unknown-id ({many}) :: behaviour of swarm {w} saw id {c} in {e:?} which no Incoming / dial action of that swarm was assigned"));
+                }
+            }
+        }
+    }
+    stat.allocations = allocs.len();
+    Ok(stat)
+}
+
+fn masks_single_field() -> Vec<DenyMask> {
+    let mut v = vec![DenyMask::default()];
+    for d in [Deny::Always, Deny::Odd, Deny::Even] {
+        v.push(DenyMask { pending_in: d, ..Default::default() });
+        v.push(DenyMask { pending_out: d, ..Default::default() });
+        v.push(DenyMask { est_in: d, ..Default::default() });
+        v.push(DenyMask { est_out: d, ..Default::default() });
+    }
+    v
+}
+fn masks_all() -> Vec<DenyMask> {
+    let ds = [Deny::Never, Deny::Always, Deny::Odd, Deny::Even];
+    let mut v = Vec::new();
+    for a_ in ds {
+        for b in ds {
+            for c in ds {
+                for d in ds {
+                    v.push(DenyMask { pending_in: a_, pending_out: b, est_in: c, est_out: d });
+                }
+            }
+        }
+    }
+    v
+}
+
+fn swarm_run_one(masks: &[DenyMask], seq: &[(usize, usize)], out: &mut Outcome, counters: &mut (u64, u64)) {
+    out.evaluations += 1;
+    out.traces += 1;
+    let r = mc::catch(|| swarm_case(masks, seq)).unwrap_or_else(|p| Err(format!("panic at {} :: {p}", mc::shim::last_panic_loc().unwrap_or_default())));
+    match r {
+        Ok(st) => {
+            if st.allocations >= 2 {
+                counters.0 += 1;
+                out.nontrivial(&format!("{masks:?}{seq:?}"));
+            }
+            if st.denied_inbound_then_incoming {
+                counters.1 += 1;
+            }
+        }
+        Err(m) => out.violation(mc::bfs::signature_of(&m), m, json!({"part": "swarm", "masks": masks, "seq": seq})),
+    }
+}
+
+fn swarm_part(ctx: &Ctx) -> Outcome {
+    let (len1, len_all, len2) = (ctx.tier.pick(5, 6), ctx.tier.pick(3, 4), ctx.tier.pick(4, 5));
+    let single = masks_single_field();
+    let all = masks_all();
+    mc::workers(ctx, 16, |ctx| {
+        let mut out = Outcome::default();
+        let mut counters = (0u64, 0u64);
+        let mut idx = 0u64;
+        // one swarm, single-field masks, long sequences
+        for m in &single {
+            mc::enumerate::sequences_upto(5, len1, |s| {
+                idx += 1;
+                if s.is_empty() || !ctx.mine(idx) {
+                    return;
+                }
+                let seq: Vec<(usize, usize)> = s.iter().map(|&x| (0, x)).collect();
+                swarm_run_one(&[*m], &seq, &mut out, &mut counters);
+                if idx % 20_011 == 3 {
+                    out.sample(json!({"part": "swarm", "mask": m, "actions": s.iter().map(|&x| SACTS[x]).collect::<Vec<_>>()}));
+                }
+            });
+        }
+        // one swarm, every combination of deny settings, shorter sequences
+        for m in &all {
+            mc::enumerate::sequences_upto(5, len_all, |s| {
+                idx += 1;
+                if s.is_empty() || !ctx.mine(idx) {
+                    return;
+                }
+                let seq: Vec<(usize, usize)> = s.iter().map(|&x| (0, x)).collect();
+                swarm_run_one(&[*m], &seq, &mut out, &mut counters);
+            });
+        }
+        // two swarms in the same process
+        for m in [DenyMask::default(), DenyMask { pending_in: Deny::Always, ..Default::default() }, DenyMask { pending_in: Deny::Odd, ..Default::default() }, DenyMask { est_in: Deny::Always, ..Default::default() }] {
+            mc::enumerate::sequences_upto(10, len2, |s| {
+                idx += 1;
+                if s.is_empty() || !ctx.mine(idx) {
+                    return;
+                }
+                let seq: Vec<(usize, usize)> = s.iter().map(|&x| (x / 5, x % 5)).collect();
+                swarm_run_one(&[m, m], &seq, &mut out, &mut counters);
+            });
+        }
+        out.count("swarm_level_executions_with_two_or_more_allocations", counters.0);
+        out.count("swarm_level_executions_incoming_after_denied_inbound", counters.1);
+        out
+    })
+}
+
 pub fn run(ctx: &Ctx) -> Outcome {
     let mut out = Outcome::default();
     if let Some(case) = &ctx.replay {
+        if case["part"] == "swarm" {
+            out.evaluations = 1;
+            let masks: Vec<DenyMask> = serde_json::from_value(case["masks"].clone()).unwrap_or_default();
+            let seq: Vec<(usize, usize)> = serde_json::from_value(case["seq"].clone()).unwrap_or_default();
+            if let Err(m) = mc::catch(|| swarm_case(&masks, &seq)).unwrap_or_else(|p| Err(format!("panic :: {p}"))) {
+                out.violation(mc::bfs::signature_of(&m), m, case.clone());
+            }
+            return out;
+        }
         let t = case["cfg"]["threads"].as_u64().unwrap_or(2) as usize;
         let a = case["cfg"]["allocs"].as_u64().unwrap_or(2) as usize;
         let only: Option<Vec<usize>> = serde_json::from_value(case["op_order"].clone()).ok();
@@ -150,12 +385,22 @@ pub fn run(ctx: &Ctx) -> Outcome {
         out.evaluations = 1;
         return out;
     }
+    if ctx.worker.is_some() {
+        // worker process of the swarm-level part: skip the shuttle part (done once, in the parent)
+        return swarm_part(ctx);
+    }
     let mut cfgs = vec![(2usize, 2usize), (2, 3), (3, 2)];
     if !ctx.quick() {
         cfgs.extend([(3, 3), (4, 2)]);
     }
     for (t, a) in cfgs {
         explore(t, a, None, &mut out);
+    }
+    // part 2 (worker processes; in a worker this call does not return)
+    let sw = swarm_part(ctx);
+    out.merge(sw);
+    if out.get("swarm_level_executions_with_two_or_more_allocations") == 0 || out.get("swarm_level_executions_incoming_after_denied_inbound") == 0 {
+        out.machinery("vacuity: swarm-level part never had two allocations / never saw an Incoming after a denied inbound connection");
     }
     if out.get("schedules_with_interleaved_atomic_ops") == 0 {
         out.machinery("vacuity: no schedule interleaved the atomic operations of two threads (scheduling points not effective)");
